@@ -177,7 +177,7 @@ func (g *c08Gen) perturb(q rawReq) rawReq {
 		q.Dev = g.r.IntN(g.ndev + 1)
 	case 6:
 		q.EncS, q.EncX = -1, 0
-		q.Variant = []string{"plain", "self"}[g.r.IntN(2)]
+		q.Variant = []string{"plain", "self", "zero-keys"}[g.r.IntN(3)]
 	case 7:
 		q.EncS, q.EncX = g.anyEnc()
 	case 8:
